@@ -40,8 +40,8 @@ Inductive stmt :=
 | SIf (branches : list (option tree * block)) (els : option block)
 | SWhile (cond : option tree) (b : block)
 | SFor (var : option str) (range : list tree) (b : block)
-| SFunc (name : str) (b : block)
-| SOn (name : str) (b : block)
+| SFunc (name : str) (ret : bool) (params : list str) (b : block)   (* ret: declared with a return type *)
+| SOn (name : str) (params : list str) (b : block)
 with block := Block (stmts : list stmt) (terms : bool).   (* BlockStatement.alwaysTerms *)
 
 Definition block_terms (b : block) : bool := match b with Block _ t => t end.
@@ -84,18 +84,22 @@ Definition K_variadic_with_others := 25.
 Definition K_override_builtin_var := 26. (* parseFuncSignatures *)
 Definition K_override_builtin_func := 27.
 Definition K_redecl_func := 28.
-Definition K_event_param_type := 29.    (* addEventParamsToScope: wrong type for parameter *)
+Definition K_event_param_type := 29.
+Definition K_bare_return := 30.          (* parseReturnStatement: expected return value of type T, found none *)
+Definition K_return_value_failed := 31.  (* parseReturnStatement: the value expression failed: ..., found ILLEGAL *)    (* addEventParamsToScope: wrong type for parameter *)
 
 (* ---------- parser state above the token cursor ---------- *)
 Record var := { v_name : str; v_used : bool; v_pos : nat }.         (* parser.Var: Name, isUsed, token *)
-Record scope := { sc_vars : list var; sc_ret : bool; sc_loop : bool }.
-   (* scope.vars (newest first); returnType != nil; block is a WhileStmt / ForStmt *)
+Record scope := { sc_vars : list var; sc_ret : bool; sc_retval : bool; sc_loop : bool }.
+   (* scope.vars (newest first); returnType != nil; returnType != NONE_TYPE; block is a WhileStmt / ForStmt *)
 Record finfo := { fi_nil : bool;                 (* isNiladic *)
                   fi_ret : bool;                 (* ReturnType != NONE_TYPE *)
+                  fi_arity : option nat;         (* len(Params), None when VariadicParam != nil *)
                   fi_params : list (str * nat) }. (* Params / VariadicParam: name and declaration token *)
 
 (* Builtins, and the typing oracle *)
 Record benv := { b_funcs : list (str * bool);          (* builtins.Funcs: name, isNiladic *)
+                 b_arity : list (str * option nat);    (* builtins.Funcs: number of parameters, None = variadic *)
                  b_globals : list str;                 (* builtins.Globals *)
                  b_events : list (str * list ty);      (* builtins.EventHandlers: parameter types *)
                  b_tyerr : tsite -> tree -> nat -> bool }.   (* site, tree, blamed token *)
@@ -164,7 +168,7 @@ Definition scope_set (n : str) (p : nat) (s : pst) : pst :=
   match scs s with
   | [] => s
   | sc :: r => with_scs s ({| sc_vars := {| v_name := n; v_used := false; v_pos := p |} :: remove_var n (sc_vars sc);
-                              sc_ret := sc_ret sc; sc_loop := sc_loop sc |} :: r)
+                              sc_ret := sc_ret sc; sc_retval := sc_retval sc; sc_loop := sc_loop sc |} :: r)
   end.
 
 (* v.isUsed = true on the variable scope.get finds (innermost scope first) *)
@@ -178,7 +182,7 @@ Fixpoint mark_scopes (n : str) (l : list scope) : list scope :=
   match l with
   | [] => []
   | sc :: r => if has_var n (sc_vars sc)
-               then {| sc_vars := mark_in n (sc_vars sc); sc_ret := sc_ret sc; sc_loop := sc_loop sc |} :: r
+               then {| sc_vars := mark_in n (sc_vars sc); sc_ret := sc_ret sc; sc_retval := sc_retval sc; sc_loop := sc_loop sc |} :: r
                else sc :: mark_scopes n r
   end.
 Definition mark (n : str) (s : pst) : pst := with_scs s (mark_scopes n (scs s)).
@@ -188,14 +192,16 @@ Definition collect (s : pst) (c : pstate) : pst :=
   let s1 := fold_right mark (with_cs s c) (used c) in
   upd (fun c => {| prev := prev c; rest := rest c; peek := peek c; wss := wss c; errs := errs c; used := [] |}) s1.
 
-Definition push_scope (ret loop : bool) (s : pst) : pst :=
-  with_scs s ({| sc_vars := []; sc_ret := ret; sc_loop := loop |} :: scs s).
+Definition push_scope (ret retval loop : bool) (s : pst) : pst :=
+  with_scs s ({| sc_vars := []; sc_ret := ret; sc_retval := retval; sc_loop := loop |} :: scs s).
 (* pushScopeWithNode: returnType is inherited *)
 Definition push_inherit (loop : bool) (s : pst) : pst :=
-  push_scope (match scs s with sc :: _ => sc_ret sc | [] => false end) loop s.
+  push_scope (match scs s with sc :: _ => sc_ret sc | [] => false end)
+             (match scs s with sc :: _ => sc_retval sc | [] => false end) loop s.
 Definition pop_scope (s : pst) : pst := with_scs s (tl (scs s)).
 Definition in_loop (s : pst) : bool := existsb sc_loop (scs s).
 Definition has_ret (s : pst) : bool := match scs s with sc :: _ => sc_ret sc | [] => false end.
+Definition ret_value (s : pst) : bool := match scs s with sc :: _ => sc_retval sc | [] => false end.
 
 (* validateScope: unused variables of the innermost scope, in source order *)
 Fixpoint insert_by_pos (v : var) (l : list var) : list var :=
@@ -231,6 +237,7 @@ Variable B : benv.
 Definition env_of (s : pst) : env :=
   {| e_funcs := map (fun nf => (fst nf, fi_nil (snd nf))) (fns s);
      e_vars := visible (scs s);
+     e_arity := map (fun nf => (fst nf, fi_arity (snd nf))) (fns s);
      e_tyerr := b_tyerr B;
      e_fix_slice := true |}.
 
@@ -369,12 +376,19 @@ Definition parse_call_stmt (s : pst) : PR (option stmt) :=
 Definition parse_return_stmt (s : pst) : PR (option stmt) :=
   let s1 := adv s in
   let rv := pos s1 in
-  pdo (v, s2) <- (if is_at_eol (cs s1) then Ok None s1
+  let bare := is_at_eol (cs s1) in
+  pdo (v, s2) <- (if bare then Ok None s1
                   else pdo (r, s2) <- p_toplevel s1;
                        match r with None => Ok None s2 | Some _ => Ok r (assert_eol s2) end);
+  (* returnType.accepts(ret.T).  ret.T is NONE for a bare return: never accepted by a declared return
+     type, always accepted by a procedure / handler (returnType NONE_TYPE); nil when the value
+     expression failed: never accepted; otherwise it is a matter of typing *)
   let s3 := if negb (has_ret s2) then serr_at K_return_not_allowed rv s2
-            else if tyerr_s TS_return_type (match v with Some t => t | None => TCall [] [] end) rv
-                 then upd (add_err_at (E_type TS_return_type) rv) s2 else s2 in
+            else match v with
+                 | None => if bare then (if ret_value s2 then serr_at K_bare_return rv s2 else s2)
+                           else serr_at K_return_value_failed rv s2
+                 | Some t => if tyerr_s TS_return_type t rv then upd (add_err_at (E_type TS_return_type) rv) s2 else s2
+                 end in
   Ok (Some (SReturn v)) (apnl s3).
 
 (* parseBreakStatement *)
@@ -557,16 +571,16 @@ Definition parse_func (fuel : nat) (s : pst) : PR (option stmt) :=
   let s2 := apnl s1 in
   let fi := match (if is_ident then lookup_fn name (fns s2) else None) with
             | Some fi => fi
-            | None => {| fi_nil := true; fi_ret := false; fi_params := [] |}   (* placeholder *)
+            | None => {| fi_nil := true; fi_ret := false; fi_arity := Some 0; fi_params := [] |}   (* placeholder *)
             end in
-  let s3 := add_params (fi_params fi) (push_scope true false s2) in
+  let s3 := add_params (fi_params fi) (push_scope true (fi_ret fi) false s2) in
   pdo (b, s4) <- parse_block fuel s3;
   if negb is_ident then Ok None (pop_scope s4)
   else if mem_str name (bodies s4) then Ok None (pop_scope (serr K_redecl_func_body s4))
   else
     let s5 := if fi_ret fi && negb (block_terms b) then serr K_missing_return s4 else s4 in
     let s6 := finish_end s5 in
-    Ok (Some (SFunc name b))
+    Ok (Some (SFunc name (fi_ret fi) (map fst (fi_params fi)) b))
        (pop_scope {| cs := cs s6; scs := scs s6; fns := fns s6; bodies := name :: bodies s6; hds := hds s6 |}).
 
 (* parseEventHandler: the parameter loop *)
@@ -605,7 +619,7 @@ Definition parse_event_handler (fuel : nat) (s : pst) : PR (option stmt) :=
                  | Some _ => {| cs := cs s2; scs := scs s2; fns := fns s2; bodies := bodies s2; hds := name :: hds s2 |}
                  end in
   pdo (params, s4) <- on_params_loop (S (pos s3)) [] (adv s3);
-  let s5 := push_scope true false (apnl s4) in
+  let s5 := push_scope true false false (apnl s4) in
   let s6 := match params, ev with
             | _ :: _, Some ex =>
                 let s' := if Nat.eqb (List.length params) (List.length ex) then s5 else serr K_event_param_count s5 in
@@ -613,7 +627,7 @@ Definition parse_event_handler (fuel : nat) (s : pst) : PR (option stmt) :=
             | _, _ => s5
             end in
   pdo (b, s7) <- parse_block fuel s6;
-  Ok (Some (SOn name b)) (pop_scope (finish_end s7)).
+  Ok (Some (SOn name (map (fun d => fst (fst d)) params) b)) (pop_scope (finish_end s7)).
 
 (* parseProgram: the statement loop *)
 Fixpoint program_loop (fuel : nat) (acc : list stmt) (terms : bool) (s : pst) : PR (list stmt) :=
@@ -669,13 +683,15 @@ Definition parse_func_def_signature (s : pst) : PR (option (str * finfo)) :=
                     | _ => Ok false s3
                     end);
   pdo (params, s5) <- sig_params_loop (S (pos s4)) [] s4;
+  let variadic := match ct s5 with T_DOT3 => Nat.eqb (List.length params) 1 | _ => false end in
   let s6 := match ct s5 with
             | T_DOT3 =>
                 let s' := adv s5 in
                 if Nat.eqb (List.length params) 1 then s' else serr K_variadic_with_others s'
             | _ => s5
             end in
-  Ok (Some (name, {| fi_nil := match params with [] => true | _ => false end; fi_ret := ret; fi_params := params |}))
+  Ok (Some (name, {| fi_nil := match params with [] => true | _ => false end; fi_ret := ret;
+                     fi_arity := if variadic then None else Some (List.length params); fi_params := params |}))
      (apnl (assert_eol s6)).
 
 (* advanceTo(i) *)
@@ -693,7 +709,7 @@ Definition signature_step (pv : token) (toks : list token) (s : pst) : PR unit :
   | None => Ok tt s1
   | Some (name, fi) =>
     let s2 := if mem_str name (b_globals B) then serr_at K_override_builtin_var ftok s1 else s1 in
-    let s3 := match lookup_fn name (map (fun nb => (fst nb, {| fi_nil := snd nb; fi_ret := false; fi_params := [] |})) (b_funcs B)) with
+    let s3 := match lookup_fn name (map (fun nb => (fst nb, {| fi_nil := snd nb; fi_ret := false; fi_arity := None; fi_params := [] |})) (b_funcs B)) with
               | Some _ => serr_at K_override_builtin_func ftok s2
               | None => if is_func name s2 then serr_at K_redecl_func ftok s2 else s2
               end in
@@ -736,10 +752,13 @@ Definition parse (B : benv) (raw : list (token * position)) (eof : position) : o
   let good := filter (fun tp => negb (is_illegal (fst tp))) raw in
   let toks := map fst good in
   let poss := map snd good in
-  let loc := fun e : perr * nat => locate poss eof (snd e) in
+  (* the token blamed for a wrong argument count (arg.Token()) is not mirrored: reported as (0, 0) *)
+  let loc := fun e : perr * nat => match fst e with E_arity => (0, 0) | _ => locate poss eof (snd e) end in
   let s0 := {| cs := state_at tEOF toks [];
                scs := [];
-               fns := map (fun nb => (fst nb, {| fi_nil := snd nb; fi_ret := true; fi_params := [] |})) (b_funcs B);
+               fns := map (fun nb => (fst nb, {| fi_nil := snd nb; fi_ret := true;
+                                                fi_arity := match lookup_arity (fst nb) (b_arity B) with Some a => a | None => None end;
+                                                fi_params := [] |})) (b_funcs B);
                bodies := []; hds := [] |} in
   match signatures B tEOF toks s0 with
   | Crash w => CrashOut w
@@ -749,7 +768,7 @@ Definition parse (B : benv) (raw : list (token * position)) (eof : position) : o
     | (_ :: _) as es => Reject es                      (* Parse: errors of newParser end the parse *)
     | [] =>
       let globals := {| sc_vars := map (fun n => {| v_name := n; v_used := true; v_pos := 0 |}) (b_globals B);
-                        sc_ret := false; sc_loop := false |} in
+                        sc_ret := false; sc_retval := false; sc_loop := false |} in
       let s2 := {| cs := state_at tEOF toks []; scs := [globals]; fns := fns s1; bodies := []; hds := [] |} in
       match program_loop B (fuel_of toks) [] false s2 with
       | Crash w => CrashOut w
@@ -799,6 +818,13 @@ Definition decode_event (x : sx) : option (str * list ty) :=
 
 Definition pos_sx (p : position) : sx := Lst [sx_nat (fst p); sx_nat (snd p)].
 
+Definition decode_func_ar (x : sx) : option (str * bool * option nat) :=
+  match x with
+  | Lst [Str n; b; Int a] => Some (n, sym_is b "true", Some (Z.to_nat a))
+  | Lst [Str n; b; Sym _] => Some (n, sym_is b "true", None)
+  | _ => None
+  end.
+
 Definition tsite_name (s : tsite) : string :=
   match s with
   | TS_unary => "unary" | TS_binary => "binary" | TS_not_indexable => "not_indexable" | TS_index_type => "index_type"
@@ -815,20 +841,21 @@ Definition decode_tyerr (x : sx) : option (str * nat) :=
   | _ => None
   end.
 
-(* case: (((fname niladic) ...) (global ...) ((event (ty ...)) ...) ((TYPE "lit" line col) ...) (eofline eofcol)
+(* case: (((fname niladic nparams|variadic) ...) (global ...) ((event (ty ...)) ...) ((TYPE "lit" line col) ...) (eofline eofcol)
           ((site blamed-token) ...))
    The last component is the typing oracle: the typing errors the real type checker reported, each as
    its site and the token it blames (tokens left); the oracle objects exactly there.
-   answer: (accept) | (reject (line col) ...) | (crash) | (oof) *)
+   answer: (accept) | (reject (line col) ...) | (crash) | (oof); a wrong argument count is reported as (0 0) *)
 Definition parser_case (x : sx) : sx :=
   match x with
   | Lst [Lst fs; Lst gs; Lst evs; Lst ts; Lst [Int el; Int ec]; Lst tes] =>
-    match decode_list decode_func fs, decode_list decode_str gs, decode_list decode_event evs,
+    match decode_list decode_func_ar fs, decode_list decode_str gs, decode_list decode_event evs,
           decode_list decode_pos_token ts, decode_list decode_tyerr tes with
     | Some funcs, Some globals, Some events, Some raw, Some tyerrs =>
       let oracle := fun (site : tsite) (_ : tree) (n : nat) =>
         existsb (fun e => str_eqb (fst e) (s_ (tsite_name site)) && Nat.eqb (snd e) n) tyerrs in
-      let B := {| b_funcs := funcs; b_globals := globals; b_events := events; b_tyerr := oracle |} in
+      let B := {| b_funcs := map (fun x => (fst (fst x), snd (fst x))) funcs; b_arity := map (fun x => (fst (fst x), snd x)) funcs;
+                  b_globals := globals; b_events := events; b_tyerr := oracle |} in
       match parse B raw (Z.to_nat el, Z.to_nat ec) with
       | Accept _ => Lst [Sym (s_ "accept")]
       | Reject es => Lst (Sym (s_ "reject") :: map pos_sx es)
